@@ -305,8 +305,11 @@ ddpbool ddp_string_equal(ddpstring *str1, ddpstring *str2) {
 	if (str1 == str2) {
 		return true;
 	}
-	if (ddp_strlen(str1) != ddp_strlen(str2)) {
+	size_t len = ddp_strlen(str1);
+	if (len != (size_t)ddp_strlen(str2)) {
 		return false; // if the length is different, it's a quick false return
 	}
-	return memcmp(str1->str, str2->str, str1->cap) == 0;
+	// compare the characters only: an empty text may have no buffer at all while the other one has
+	// (and cap may count more than the characters and the null-terminator)
+	return len == 0 || memcmp(str1->str, str2->str, len) == 0;
 }
